@@ -884,12 +884,18 @@ func (rw *rewriter) accStmt(target ast.Expr, write bool, at ast.Node) ast.Stmt {
 // Element writes through a shared slice variable (outmatrix[i][j] = …) are
 // reported on the element address.
 func (rw *rewriter) accessesIn(e ast.Expr, write bool) []ast.Stmt {
-	if len(rw.shared) == 0 || e == nil {
+	if e == nil || rw.noAcc {
 		return nil
 	}
 	var out []ast.Stmt
 	if write {
 		switch t := e.(type) {
+		case *ast.SelectorExpr:
+			if rw.sharedField(t) {
+				out = append(out, rw.accessesIn(t.X, false)...)
+				out = append(out, rw.accStmt(cloneExpr(t), true, e))
+				return out
+			}
 		case *ast.Ident:
 			if o, ok := rw.info.Uses[t].(*types.Var); ok && rw.shared[o] {
 				out = append(out, rw.accStmt(ast.NewIdent(t.Name), true, e))
@@ -932,10 +938,28 @@ func (rw *rewriter) accessesIn(e ast.Expr, write bool) []ast.Stmt {
 					out = append(out, rw.accStmt(ast.NewIdent(t.Name), false, t))
 				}
 			}
+		case *ast.SelectorExpr:
+			if rw.sharedField(t) {
+				if k := exprString(t); !seen[k] {
+					seen[k] = true
+					out = append(out, rw.accStmt(cloneExpr(t), false, t))
+				}
+			}
 		}
 		return true
 	})
 	return out
+}
+
+// sharedField: x.Err with x an align.AlignChannel (or a pointer to one) — the one structure goalign
+// hands from a parser goroutine to its consumer; its error field is plain data written by the
+// producer and read by the consumer, so its accesses are access events wherever they occur.
+func (rw *rewriter) sharedField(t *ast.SelectorExpr) bool {
+	if t.Sel.Name != "Err" || !simpleExpr(t.X) {
+		return false
+	}
+	ok, _ := namedIs(rw.typeOf(t.X), modPath+"/align", "AlignChannel")
+	return ok
 }
 
 func rootIdent(e ast.Expr) *ast.Ident {
